@@ -13,18 +13,18 @@ variable (T : LexTables) (cfg : SetCfg) (g : Env)
 /-- a list or array is iterated in order… -/
 theorem iter_in_order (ty : Bytes) (xs : List Val) :
     iterItems (.list ty xs) false false = xs.map (fun x => (x, none)) := by
-  simp [iterItems, Val.resolved]
+  simp [iterItems, Val.reflected, Val.resolved]
 
 /-- …`reversed` iterates it backwards… -/
 theorem iter_reversed (ty : Bytes) (xs : List Val) :
     iterItems (.list ty xs) true false = xs.reverse.map (fun x => (x, none)) := by
-  simp [iterItems, Val.resolved]
+  simp [iterItems, Val.reflected, Val.resolved]
 
 /-- …and anything that is not a list, array, map or string (nil, numbers,
     booleans, structs) has no items: the `empty` branch runs. -/
 theorem iter_nothing (v : Val) (h : v = .nil ∨ (∃ i, v = .int i) ∨ (∃ b, v = .bool b)) (r s : Bool) :
     iterItems v r s = [] := by
-  rcases h with rfl | ⟨i, rfl⟩ | ⟨b, rfl⟩ <;> simp [iterItems, Val.resolved]
+  rcases h with rfl | ⟨i, rfl⟩ | ⟨b, rfl⟩ <;> simp [iterItems, Val.reflected, Val.resolved]
 
 theorem insertSorted_perm (less : Val → Val → Bool) (x : Val) (l : List Val) :
     (insertSorted less x l).Perm (x :: l) := by
